@@ -197,6 +197,10 @@ impl<'a, I, O> Visit for ExecStmt<'a, I, O> {
 
 impl<'a, I: Read, O: Write> VisitProgram for ExecStmt<'a, I, O> {
     fn visit_program(&mut self, p: &Program) -> visit::Result<Self> {
+        // a program starts in the normal state, however the one before it (on the same
+        // `ExecStmt`) ended
+        self.control_flow_state = ControlFlowState::Normal;
+        self.return_val = None;
         for b in &p.code {
             self.visit_block(b)?;
             if self.control_flow_state.skip_rest_of_block() {
